@@ -21,6 +21,7 @@ import (
 	"github.com/goccmack/gocc/internal/ast"
 	"github.com/goccmack/gocc/internal/parser/first"
 	"github.com/goccmack/gocc/internal/parser/symbols"
+	"github.com/goccmack/gocc/internal/verifhook"
 )
 
 // A list of a list of Items.
@@ -40,6 +41,7 @@ func GetItemSets(g *ast.Grammar, s *symbols.Symbols, firstSets *first.FirstSets)
 		again = false
 		for i, I := range S.sets {
 			if i > included {
+				verifhook.Step(verifhook.SiteLR1ItemSets)
 				for _, X := range symbols {
 					gto := I.Goto(X)
 					if gto.Size() > 0 {
